@@ -114,7 +114,9 @@ class C12(PropertyCheck):
         out = []
         for n in (max(ys) - min(ys) + 1, max(xs) - min(xs) + 1):
             ok = [S for S in range(2, 6) if all(((2 * i + 1) * n) % (2 * S) != 0 for i in range(S))]
-            out.append(rng.choice(ok) if ok else 2)
+            if not ok:
+                return None  # every overlay size puts a point on a pixel boundary: entry skipped
+            out.append(rng.choice(ok))
         return out
 
     # ------------------------------------------------------------------ implementation
@@ -175,8 +177,9 @@ class C12(PropertyCheck):
         centre = (origin[0] + 0.25, origin[1] - 0.5)
         put("radial_projected", "coord", lambda: grid(g.grid_2d_radial_projected_from(
             centre=centre, angle=float(case["angle"]))))
-        ov = aa.image_mesh.Overlay(shape=tuple(case["overlay"]))
-        put("overlay_mesh", "coord", lambda: grid(ov.image_plane_mesh_grid_from(mask=m, adapt_data=None)))
+        if case.get("overlay"):
+            ov = aa.image_mesh.Overlay(shape=tuple(case["overlay"]))
+            put("overlay_mesh", "coord", lambda: grid(ov.image_plane_mesh_grid_from(mask=m, adapt_data=None)))
         # index-valued results at translated points
         pts = [(F(a) + shift[0], F(b) + shift[1]) for a, b in case["points"]]
         put("pixel_coordinates", "inv", lambda: [list(map(int, m.geometry.pixel_coordinates_2d_from(
@@ -192,6 +195,10 @@ class C12(PropertyCheck):
         put("border_slim", "inv", lambda: [int(v) for v in m.derive_indexes.border_slim])
         put("sub_border_slim", "inv", lambda: [int(v) for v in aa.BorderRelocator(mask=m, sub_size=sub).sub_border_slim])
         put("pixels_in_mask", "inv", lambda: int(m.pixels_in_mask))
+        put("blurring_bits", "inv", lambda: "".join("1" if b else "0" for b in np.asarray(
+            m.derive_mask.blurring_from(kernel_shape_native=k)).ravel()))
+        put("resized_bits", "inv", lambda: "".join("1" if b else "0" for b in np.asarray(
+            m.resized_from(new_shape=tuple(case["resize_to"]))).ravel()))
         return out
 
     def _entries_dataset(self, aa, case, origin, shift):
@@ -271,8 +278,12 @@ class C12(PropertyCheck):
         def rect():
             mesh = aa.Mesh2DRectangular.overlay_grid(grid=src, shape_native=tuple(case["mesh"]))
             mg = aa.MapperGrids(mask=m, source_plane_data_grid=src, source_plane_mesh_grid=mesh)
-            mp = aa.MapperRectangular(mapper_grids=mg, over_sampler=os_, regularization=None)
-            return {"pix_indexes": np.asarray(mp.pix_indexes_for_sub_slim_index).astype(int).tolist(),
+            mp = aa.MapperRectangular(mapper_grids=mg, over_sampler=os_, border_relocator=None, regularization=None)
+            return {"src": [[q(a), q(b)] for a, b in np.asarray(src.array, dtype=float)],
+                    "mesh_origin": [q(mesh.origin[0]), q(mesh.origin[1])],
+                    "mesh_scales_q": [q(mesh.pixel_scales[0]), q(mesh.pixel_scales[1])],
+                    "mesh_scales": [float(mesh.pixel_scales[0]), float(mesh.pixel_scales[1])],
+                    "pix_indexes": np.asarray(mp.pix_indexes_for_sub_slim_index).astype(int).tolist(),
                     "mapping_matrix": np.asarray(mp.mapping_matrix, dtype=float).tolist(),
                     "mesh_origin_rel": [float(mesh.origin[0] - origin[0]), float(mesh.origin[1] - origin[1])]}
         put("mapper_rectangular", "inv", rect)
@@ -284,7 +295,7 @@ class C12(PropertyCheck):
             verts = vr * ext + np.array(origin)
             mesh = aa.Mesh2DDelaunay(values=verts)
             mg = aa.MapperGrids(mask=m, source_plane_data_grid=src, source_plane_mesh_grid=mesh)
-            mp = aa.MapperDelaunay(mapper_grids=mg, over_sampler=os_, regularization=None)
+            mp = aa.MapperDelaunay(mapper_grids=mg, over_sampler=os_, border_relocator=None, regularization=None)
             return {"mapping_matrix": np.asarray(mp.mapping_matrix, dtype=float).tolist()}
         put("mapper_delaunay", "inv", dela)
         return out
@@ -337,6 +348,9 @@ class C12(PropertyCheck):
             if e0.get("err") or e1.get("err"):
                 if e0.get("err") != e1.get("err"):
                     return False, f"{name}: raises {e0.get('err')} at origin o but {e1.get('err')} at o+d {e1.get('msg','')}"
+                if e0.get("err") not in ("MaskException",):
+                    # only the documented footprint-outside-frame error is an acceptable outcome
+                    return False, f"{name}: raises {e0.get('err')} at both origins {e0.get('msg','')}"
                 continue
             k, v0, v1 = e0["kind"], e0["value"], e1["value"]
             if k == "coord":
@@ -365,7 +379,10 @@ class C12(PropertyCheck):
     def _deep_close(self, a, b):
         if isinstance(a, dict):
             return isinstance(b, dict) and set(a) == set(b) and all(
-                (k.endswith("_rel") and self._close(a[k], b[k])) or self._deep_close(a[k], b[k]) for k in a)
+                k in ("src", "mesh_origin", "mesh_scales_q")  # coordinate-valued helpers, fed to the model, not invariants
+                or (k.endswith("_rel") and self._close(a[k], b[k])) or self._deep_close(a[k], b[k]) for k in a)
+        if isinstance(a, str) or isinstance(b, str):
+            return a == b
         try:
             return self._close(a, b)
         except Exception:
@@ -377,8 +394,92 @@ class C12(PropertyCheck):
         return None
 
     # ------------------------------------------------------------------ model (geometry records)
+    MODEL_ENTRIES = ["from_mask", "all_false", "unmasked", "edge", "border", "blurring", "padded",
+                     "over_sampled", "border_sub_grid", "mask_centre", "extent", "scaled_minmax",
+                     "zoom_mask_unmasked", "zoomed_around_mask", "resized", "pixel_coordinates",
+                     "grid_pixel_indexes", "grid_pixel_centres", "grid_pixels"]
+
     def model_requests(self, case, impl_obs):
-        return []
+        if "at_o" not in impl_obs:
+            return []
+        if case["group"] == "mapper":
+            reqs = []
+            for key in ("at_o", "at_od"):
+                e = impl_obs[key].get("mapper_rectangular", {})
+                if e.get("err") or not e.get("value"):
+                    raise Skip("mapper construction failed")
+                reqs.append({"op": "c12.rect_mapper", "grid": e["value"]["src"], "mesh": case["mesh"],
+                             "buffer": q(1e-8)})
+            return reqs
+        if case["group"] != "geometry":
+            return []
+        reqs = []
+        o = [Fraction(case["origin"][0]), Fraction(case["origin"][1])]
+        d = [Fraction(case["shift"][0]), Fraction(case["shift"][1])]
+        for key, org, sh in (("at_o", o, [0, 0]), ("at_od", [o[0] + d[0], o[1] + d[1]], d)):
+            e = impl_obs[key]
+            need = ("edge_slim", "border_slim", "blurring_bits", "resized_bits", "zoom_mask_unmasked",
+                    "zoomed_around_mask")
+            if any(e[n].get("err") for n in need):
+                raise Skip("an implementation-side table is unavailable (footprint outside frame)")
+            reqs.append({
+                "op": "c12.entries", "mask": case["mask"], "scales": case["scales"],
+                "origin": [q(org[0]), q(org[1])], "kernel": case["kernel"], "sub": case["sub"],
+                "edge_slim": e["edge_slim"]["value"], "border_slim": e["border_slim"]["value"],
+                "blurring_bits": e["blurring_bits"]["value"],
+                "resized_shape": case["resize_to"], "resized_bits": e["resized_bits"]["value"],
+                "zoom_shape": e["zoom_mask_unmasked"]["value"]["shape"],
+                "zoomed_shape": e["zoomed_around_mask"]["value"]["shape"],
+                "points": [[q(Fraction(a) + sh[0]), q(Fraction(b) + sh[1])] for a, b in case["points"]],
+            })
+        return reqs
+
+    def model_obs(self, case, responses):
+        for r in responses:
+            if "err" in r:
+                return {"err": r["err"]}
+        return {"at_o": responses[0]["ok"], "at_od": responses[1]["ok"]}
+
+    def compare(self, case, impl_obs, model_obs, cmp):
+        if "err" in model_obs:
+            return f"model error {model_obs}"
+        if case["group"] == "mapper":
+            for key in ("at_o", "at_od"):
+                mo = model_obs[key]
+                if Fraction(mo["tie_margin"]) < Fraction(1, 10**6):
+                    raise Skip("a source-plane point lies within the tie band of a mesh cell boundary")
+                v = impl_obs[key]["mapper_rectangular"]["value"]
+                d = cmp.diff({"pix": [int(x[0]) if isinstance(x, list) else int(x) for x in v["pix_indexes"]],
+                              "origin": v["mesh_origin"], "scales": v["mesh_scales_q"]},
+                             {"pix": mo["pix_indexes"], "origin": mo["origin"], "scales": mo["scales"]},
+                             f"$.{key}.mapper_rectangular")
+                if d:
+                    return d
+            return None
+        for key in ("at_o", "at_od"):
+            for name in self.MODEL_ENTRIES:
+                e = impl_obs[key][name]
+                if e.get("err"):
+                    return f"{key}.{name}: implementation raised {e['err']}"
+                iv = e["value"]
+                mv = model_obs[key][name]
+                if name in ("zoomed_around_mask",):
+                    iv = {k: iv[k] for k in ("origin", "shape", "grid")}
+                if name == "mask_centre":
+                    iv = iv[0]
+                d = cmp.diff(iv, mv, f"$.{key}.{name}")
+                if d:
+                    return d
+        return None
+
+    def theorems_for(self, case):
+        return {"geometry": ["C12.grid_from_mask_covariant", "C12.gathered_grid_covariant",
+                             "C12.padded_grid_covariant", "C12.over_sampled_grid_covariant",
+                             "C12.mask_centre_covariant", "C12.extent_covariant", "C12.zoom_mask_covariant",
+                             "C12.zoomed_around_mask_covariant", "C12.resized_grid_covariant",
+                             "C12.pixel_indices_invariant", "C12.grid_pixel_indexes_invariant"],
+                "mapper": ["C12.overlay_mesh_covariant", "C12.rectangular_mapper_table_invariant"],
+                "dataset": ["C12.dataset_records_commute"]}.get(case["group"], ["C12.*"])
 
     def nontrivial(self, case, obs):
         bits = case.get("mask", {}).get("bits", "01")
